@@ -127,6 +127,10 @@ def m_part(run, scr, nat):
             m2 = mcheck.refine(ms, sem, D, item["asserts"], model, INPUTS)
             if m2:
                 cands.append(m2)
+            for asserts_ in ([item["strong"]] if item.get("strong") else []) + [item["asserts"]]:
+                m3 = mcheck.refine_exact(ms, sem, D, asserts_, model, INPUTS, pin=["md", "mw", "lk_n", "lk_d", "lk_tag"])
+                if m3:
+                    cands.append(m3)
             if not cands:
                 run.inconclusive.append("C12 %s: candidate model could not be refined to exact products: %s" % (what, ob.get("model")))
                 return
